@@ -117,6 +117,10 @@ func (r *runner) rebuild(f *follower, valid []func() *Built) *follower {
 }
 
 func main() {
+	if os.Getenv("C02_NIL_CHILD") != "" {
+		nilChild() // isolated worker of the nil-member sweep (nilsweep.go)
+		return
+	}
 	c := hx.NewCtx("C02")
 	if pf := os.Getenv("C02_PROF"); pf != "" { // development aid: CPU profile of the harness process
 		f, err := os.Create(pf)
